@@ -62,7 +62,18 @@ func loadCorpus(path string) *Corpus {
 	return c
 }
 
+const maxHung = 10
+
+// 2x2 input [[a,b],[c,a]] with b*c > 0 handed to the QR algorithm (directly or through eigensystem)
+func knownHangShape(in *IterIn) bool {
+	if (in.Kind != "qr" && in.Kind != "eig") || in.M.R != 2 || in.M.C != 2 {
+		return false
+	}
+	return in.M.At(0, 0) == in.M.At(1, 1) && in.M.At(0, 1)*in.M.At(1, 0) > 0
+}
+
 type runner struct {
+	hangShapes int
 	dw, rw   *CaseWriter
 	timeouts []RawR
 	nonval   []RawR
@@ -161,7 +172,9 @@ func main() {
 		replayMain(o)
 		return
 	}
-	rng := NewRng(o.Seed)
+	// common.NewRng(seed) states of neighbouring seeds are shifts of one another
+	// (state = seed*golden + c, step = golden): derive the stream from one mixed output
+	rng := NewRng(o.Seed).Split()
 	perD, perR := 40, 30
 	rn := &runner{
 		dw: NewCaseWriter(o.Out, "cases", dHeader, "mism", perD),
@@ -204,11 +217,21 @@ func main() {
 		if i%10 == 0 {
 			mx = 8
 		}
-		if hung >= 6 {
-			rn.rw.Count("skipped-after-6-hangs")
+		if hung >= maxHung {
+			rn.rw.Count("skipped-after-hang-budget")
 			continue
 		}
-		rn.iter(GenIter(r, mx))
+		in := GenIter(r, mx)
+		if knownHangShape(in) {
+			// [[a,b],[c,a]] with b*c > 0: the shift a makes the 2x2 QR step a swap (F-QR-HANG);
+			// two per run keep the finding observed, the rest would only burn the hang budget
+			if rn.hangShapes >= 2 {
+				rn.rw.Count("skipped-known-hang-shape-2x2")
+				continue
+			}
+			rn.hangShapes++
+		}
+		rn.iter(in)
 	}
 	rn.rw.Extra["timeouts"] = rn.timeouts
 	rn.rw.Extra["nonvalues"] = rn.nonval
